@@ -17,6 +17,7 @@ Section PInd.
   Hypothesis HWhile : forall c b, Forall Q b -> Q (PWhile c b).
   Hypothesis HFor : forall x c b, Forall Q b -> Q (PFor x c b).
   Hypothesis HBreak : Q PBreak.
+  Hypothesis HContinue : Q PContinue.
   Hypothesis HWrite : forall e, Q (PWrite e).
   Hypothesis HSleep : forall e, Q (PSleep e).
   Hypothesis HExprS : forall e, Q (PExprS e).
@@ -29,7 +30,7 @@ Section PInd.
     | PAssign x e => HAssign x e | PAug x op e t => HAug x op e t | PTuple xs es => HTuple xs es
     | PIf c b el e => HIf c b el e (go b) (gob el) (go e)
     | PWhile c b => HWhile c b (go b) | PFor x c b => HFor x c b (go b)
-    | PBreak => HBreak | PWrite e => HWrite e | PSleep e => HSleep e | PExprS e => HExprS e
+    | PBreak => HBreak | PContinue => HContinue | PWrite e => HWrite e | PSleep e => HSleep e | PExprS e => HExprS e
     end.
 End PInd.
 
@@ -244,11 +245,11 @@ Proof.
   f_equal. apply IH. congruence.
 Qed.
 
-Lemma trt_fresh : forall ps D g, In g (snd (trt D ps)) -> tmem (g_name g) D = false.
+Lemma trt_fresh ret : forall ps D g, In g (snd (trt ret D ps)) -> tmem (g_name g) D = false.
 Proof.
   induction ps as [|p r IH]; intros D g Hg; [destruct Hg|].
-  assert (K : In g (snd (trt D r)) -> tmem (g_name g) D = false) by apply IH.
-  assert (K2 : forall X, In g (snd (trt (D ++ X) r)) -> tmem (g_name g) D = false).
+  assert (K : In g (snd (trt ret D r)) -> tmem (g_name g) D = false) by apply IH.
+  assert (K2 : forall X, In g (snd (trt ret (D ++ X) r)) -> tmem (g_name g) D = false).
   { intros X H. apply IH in H. rewrite tmem_app in H. apply orb_false_iff in H as [H _]. exact H. }
   destruct p; cbn [trt snd] in Hg; try (apply K; exact Hg).
   - destruct (tmem x D) eqn:Ex; [apply K; exact Hg|].
@@ -259,12 +260,12 @@ Proof.
     apply tup_globals_names in Hg. rewrite forallb_forall in Hc. apply Hc in Hg. apply negb_true_iff in Hg. exact Hg.
 Qed.
 
-Lemma trt_nodup : forall ps D, NoDup (map g_name (snd (trt D ps))).
+Lemma trt_nodup ret : forall ps D, NoDup (map g_name (snd (trt ret D ps))).
 Proof.
   induction ps as [|p r IH]; intro D; [constructor|].
   destruct p; cbn [trt snd]; try apply IH.
   - destruct (tmem x D) eqn:Ex; [apply IH|].
-    assert (N : ~ In x (map g_name (snd (trt (D ++ [x]) r)))).
+    assert (N : ~ In x (map g_name (snd (trt ret (D ++ [x]) r)))).
     { intro HI. apply in_map_iff in HI as (g & <- & Hg). apply trt_fresh in Hg.
       rewrite tmem_app in Hg. apply orb_false_iff in Hg as [_ Hg]. cbn in Hg. rewrite text_eqb_refl in Hg. discriminate. }
     destruct (closed_const e); cbn [snd map g_name]; constructor; auto.
@@ -275,47 +276,47 @@ Proof.
     rewrite tmem_app in Hg. apply orb_false_iff in Hg as [_ Hg]. apply tmem_In in Hy. congruence.
 Qed.
 
-Lemma trm_fresh top lm D ps g : In g (snd (trm top lm D ps)) -> tmem (g_name g) (map fst D) = false.
+Lemma trm_fresh ret top lm D ps g : In g (snd (trm ret top lm D ps)) -> tmem (g_name g) (map fst D) = false.
 Proof. destruct top, lm; cbn; try (intros []); apply trt_fresh. Qed.
 
-Lemma trm_nil top lm D : trm top lm D [] = ([], []).
+Lemma trm_nil ret top lm D : trm ret top lm D [] = ([], []).
 Proof. destruct top, lm; reflexivity. Qed.
 
-Lemma trm_cons_old top lm D x e rest t : tlookup x D = Some t ->
-  trm top lm D (PAssign x e :: rest) = (tr1 (PAssign x e) ++ fst (trm top lm D rest), snd (trm top lm D rest)).
+Lemma trm_cons_old ret top lm D x e rest t : tlookup x D = Some t ->
+  trm ret top lm D (PAssign x e :: rest) = (tr1 ret (PAssign x e) ++ fst (trm ret top lm D rest), snd (trm ret top lm D rest)).
 Proof.
   intro H. destruct top; [|reflexivity]. destruct lm; unfold trm; cbn [trt trl];
     match goal with |- context [tmem x ?l] => replace (tmem x l) with true by (symmetry; eapply tlookup_dom_true; eauto) end;
     reflexivity.
 Qed.
 
-Lemma trm_cons_new D x e rest : tlookup x D = None ->
-  trm true false D (PAssign x e :: rest) =
+Lemma trm_cons_new ret D x e rest : tlookup x D = None ->
+  trm ret true false D (PAssign x e :: rest) =
   if closed_const e
-  then (fst (trm true false (D ++ [(x, a_ty e)]) rest),
-        {| g_name := x; g_ty := a_ty e; g_init := XE (a_id e) |} :: snd (trm true false (D ++ [(x, a_ty e)]) rest))
-  else (NAssign x (XE (a_id e)) :: fst (trm true false (D ++ [(x, a_ty e)]) rest),
-        {| g_name := x; g_ty := a_ty e; g_init := XDefault (a_ty e) |} :: snd (trm true false (D ++ [(x, a_ty e)]) rest)).
+  then (fst (trm ret true false (D ++ [(x, a_ty e)]) rest),
+        {| g_name := x; g_ty := a_ty e; g_init := XE (a_id e) |} :: snd (trm ret true false (D ++ [(x, a_ty e)]) rest))
+  else (NAssign x (XE (a_id e)) :: fst (trm ret true false (D ++ [(x, a_ty e)]) rest),
+        {| g_name := x; g_ty := a_ty e; g_init := XDefault (a_ty e) |} :: snd (trm ret true false (D ++ [(x, a_ty e)]) rest)).
 Proof.
   intro H. unfold trm. cbn [trt].
   match goal with |- context [tmem x ?l] => replace (tmem x l) with false by (symmetry; eapply tlookup_dom_false; eauto) end.
   rewrite map_app. reflexivity.
 Qed.
 
-Lemma trm_cons_newl D x e rest : tlookup x D = None ->
-  trm true true D (PAssign x e :: rest) =
-  (NDecl x (a_ty e) (XE (a_id e)) false :: fst (trm true true (D ++ [(x, a_ty e)]) rest),
-   snd (trm true true (D ++ [(x, a_ty e)]) rest)).
+Lemma trm_cons_newl ret D x e rest : tlookup x D = None ->
+  trm ret true true D (PAssign x e :: rest) =
+  (NDecl x (a_ty e) (XE (a_id e)) false :: fst (trm ret true true (D ++ [(x, a_ty e)]) rest),
+   snd (trm ret true true (D ++ [(x, a_ty e)]) rest)).
 Proof.
   intro H. unfold trm. cbn [trl fst snd].
   match goal with |- context [tmem x ?l] => replace (tmem x l) with false by (symmetry; eapply tlookup_dom_false; eauto) end.
   rewrite map_app. reflexivity.
 Qed.
 
-Lemma trm_cons_tuple D L xs es rest : tuple_decl_ok D L xs es = true ->
-  trm true false D (PTuple xs es :: rest) =
-  (tup_nodes xs es ++ fst (trm true false (D ++ combine xs (map a_ty es)) rest),
-   tup_globals xs es ++ snd (trm true false (D ++ combine xs (map a_ty es)) rest)).
+Lemma trm_cons_tuple ret D L xs es rest : tuple_decl_ok D L xs es = true ->
+  trm ret true false D (PTuple xs es :: rest) =
+  (tup_nodes xs es ++ fst (trm ret true false (D ++ combine xs (map a_ty es)) rest),
+   tup_globals xs es ++ snd (trm ret true false (D ++ combine xs (map a_ty es)) rest)).
 Proof.
   intro H. apply tuple_decl_ok_inv in H as (Hlen & _ & Hnew & Hnd).
   unfold trm. cbn [trt]. rewrite map_app, map_fst_combine by (rewrite map_length; exact Hlen).
@@ -325,12 +326,12 @@ Proof.
   rewrite E. reflexivity.
 Qed.
 
-Lemma trm_cons_other top lm D p rest :
+Lemma trm_cons_other ret top lm D p rest :
   match p with PAssign _ _ | PTuple _ _ => False | _ => True end ->
-  trm top lm D (p :: rest) = (tr1 p ++ fst (trm top lm D rest), snd (trm top lm D rest)).
+  trm ret top lm D (p :: rest) = (tr1 ret p ++ fst (trm ret top lm D rest), snd (trm ret top lm D rest)).
 Proof. intro H. destruct top, lm; destruct p; try reflexivity; destruct H. Qed.
 
-Lemma trm_local_snd D ps : snd (trm true true D ps) = [].
+Lemma trm_local_snd ret D ps : snd (trm ret true true D ps) = [].
 Proof. reflexivity. Qed.
 
 Lemma closed_const_fv e : closed_const e = true -> a_fv e = [].
